@@ -358,8 +358,8 @@ theorem handler_only_when_registered (e : S.Esc) (cfg : Cfg) (tbl : Table) (rq :
               exact ⟨sel, hw, precond_none_handler hck, rfl, rfl⟩
 
 
-example : ∃ c, (S.serverSpec E ⟨false, 8, []⟩ ⟨none, none, [⟨[97], 1, 0, false⟩]⟩
-    ⟨false, ⟨0, 1, 7, [1], [(11, [97])], []⟩, ⟨69, []⟩, .absent⟩).call = some c := ⟨_, by decide⟩
+example : (S.serverSpec E ⟨false, 8, []⟩ ⟨none, none, [⟨[97], 1, 0, false⟩]⟩
+    ⟨false, ⟨0, 1, 7, [1], [(11, [97])], []⟩, ⟨69, []⟩, .absent⟩).call = some ⟨.res 0, 1, [97], [], [(11, [97])], []⟩ := by decide
 
 /-! ### non-vacuity: concrete requests meeting the hypotheses of the clause theorems -/
 def exCfg : Cfg := ⟨false, 8, []⟩
